@@ -201,6 +201,22 @@ theorem C12_selection_is_closure (g : G) (hnd : g.nodes.Nodup) (ht : TopoL g.pre
       (inR g R x ∧ ¬ (x ∈ X ∨ ∃ q ∈ X, Reach g q x) ∧ (x ∈ T ∨ ∃ t ∈ T, Reach g x t)) :=
   GM.selectNodes_spec g hnd ht R X T hR hX hT x
 
+/-- C12 / C11, targets only (`executor(target_nodes=T)`, `setup(target_nodes=T)` — the selection the history driver
+    computes itself for every such operation): the targets and their ancestors; `setup(target_nodes=T)` runs the setup
+    nodes among them ("only the setup nodes its selection needs"). -/
+theorem C12_targets_only (g : G) (hnd : g.nodes.Nodup) (ht : TopoL g.preds g.nodes) (T : List GM.Node) (x : GM.Node) :
+    x ∈ selectNodes g none none (some T) ↔ x ∈ g.nodes ∧ (x ∈ T ∨ ∃ t ∈ T, Reach g x t) :=
+  GM.selectNodes_targets g hnd ht T x
+
+theorem C11_setup_selection (g : G) (hnd : g.nodes.Nodup) (ht : TopoL g.preds g.nodes) (isSetup : GM.Node → Bool)
+    (T : List GM.Node) (x : GM.Node) :
+    x ∈ (selectNodes g none none (some T)).filter isSetup ↔
+      isSetup x = true ∧ x ∈ g.nodes ∧ (x ∈ T ∨ ∃ t ∈ T, Reach g x t) := by
+  rw [List.mem_filter, GM.selectNodes_targets g hnd ht T x]
+  constructor
+  · rintro ⟨h1, h2⟩; exact ⟨h2, h1⟩
+  · rintro ⟨h1, h2⟩; exact ⟨h2, h1⟩
+
 /-- C12 ("through any alias form"): a string that is some node's tag denotes exactly the nodes carrying
     that tag — also when it is, in addition, the id of another node (tags win). -/
 theorem C12_alias_tag_wins (nm : Naming) (a : String) (i : GM.Node) (hi : i < nm.n) (ht : a ∈ nm.tagsOf i) :
